@@ -41,15 +41,27 @@ from hypothesis import strategies as st
 from .grids import grid_spec
 
 _f = lambda lo, hi: st.floats(lo, hi, allow_nan=False, allow_infinity=False, allow_subnormal=False, width=64)  # noqa: E731
+# data values: exactly zero or at least 1e-6 in magnitude, so that products with unit factors never reach the
+# subnormal range (where "relative to the problem's own scale" loses its meaning)
+_d = lambda lo, hi: _f(lo, hi).map(lambda v: v if abs(v) >= 1e-6 else 0.0)  # noqa: E731
 
 KW = "mechanics"
 PATTERN_LEN = 24
 
 
 # --------------------------------------------------------------------------- strategies
+LENGTH_SCALES = [1e-6, 1e-4, 1e-2, 1e2, 1e4]
+MODULUS_SCALES = [1e-6, 1e-3, 1e3, 1e6, 1e10, 1e10, 1e12]
+DATA_SCALES = [1e-6, 1e-3, 1e3, 1e6]
+
+
 @st.composite
-def mech_grid_spec(draw, poly=False, max_amp=0.15, max_n=4, max_n3=2, dims=(2, 3), gmsh=False):
-    """2-d grids in the xy-plane (no rigid motion); 3-d grids optionally rotated / affinely mapped."""
+def mech_grid_spec(draw, poly=False, max_amp=0.15, max_n=4, max_n3=2, dims=(2, 3), gmsh=False, units=True,
+                   graded=True, min_grade=1e-4):
+    """2-d grids in the xy-plane (no rigid motion); 3-d grids optionally rotated / affinely mapped.
+    units: about one grid in four is multiplied by a unit factor 1e-6 .. 1e4 ("scale" key of gen/grids.py;
+    the rigid shift is a length too and is scaled with it).  graded: about one tensor grid in two gets,
+    per axis, one spacing multiplied by a factor in [min_grade, 1e-2]: very small cells next to O(1) cells."""
     dim = draw(st.sampled_from(list(dims)))
     s = draw(grid_spec(dims=(dim,), poly=poly, max_amp=max_amp, max_n=max_n, max_n3=max_n3, rigid=(dim == 3),
                        affine=True, gmsh=gmsh))
@@ -60,13 +72,55 @@ def mech_grid_spec(draw, poly=False, max_amp=0.15, max_n=4, max_n3=2, dims=(2, 3
         s["phys"] = [min(p, 1.6 * m) for p in s["phys"]]
         if dim == 3:
             s["h"] = max(s["h"], 0.6)
+    if graded and s["kind"] == "tensor" and draw(st.integers(0, 1)) == 1:
+        # only axes with >= 2 cells are graded, so the extent of the domain stays O(1) in every direction (a 2-d
+        # domain flatter than 1e-5 of its length is taken for a 1-d object by pp.map_geometry.map_grid)
+        coords = []
+        for c in s["coords"]:
+            steps = list(np.diff(np.asarray(c, dtype=float)))
+            if len(steps) >= 2:
+                k = draw(st.integers(0, len(steps) - 1))
+                steps[k] *= draw(st.sampled_from([f for f in (1e-2, 1e-3, 1e-4, 1e-5) if f >= min_grade]))
+                s["graded"] = True
+            coords.append([float(c[0])] + [float(v) for v in (c[0] + np.cumsum(steps))])
+        s["coords"] = coords
+    if units and draw(st.integers(0, 3)) == 3:
+        s["scale"] = draw(st.sampled_from(LENGTH_SCALES))
+        if s.get("rigid"):
+            s["rigid"]["shift"] = [float(v) * s["scale"] for v in s["rigid"]["shift"]]
     return s
 
 
 @st.composite
-def lame_spec(draw):
-    # DESIGN section 3: mu in [0.5, 3], lambda in [0.1, 3]
-    return {"mu": draw(_f(0.5, 3.0)), "lmbda": draw(_f(0.1, 3.0))}
+def lame_spec(draw, scaled=True):
+    """DESIGN section 3: mu in [0.5, 3], lambda in [0.1, 3]; about one case in four multiplied by a
+    modulus scale 1e-6 .. 1e12 (1e10 = Pa-scale rock moduli), recorded as "mscale"."""
+    mu, lm = draw(_f(0.5, 3.0)), draw(_f(0.1, 3.0))
+    ms = 1.0
+    if scaled and draw(st.integers(0, 3)) == 3:
+        ms = draw(st.sampled_from(MODULUS_SCALES))
+    return {"mu": mu * ms, "lmbda": lm * ms, "mscale": ms}
+
+
+def data_scale(draw):
+    """1 (three cases in four) or a magnitude factor for displacement / pressure data."""
+    if draw(st.integers(0, 3)) == 3:
+        return draw(st.sampled_from(DATA_SCALES))
+    return 1.0
+
+
+def scale_labels(grid, lame, dscale=1.0):
+    labs = []
+    if grid.get("graded"):
+        labs.append("graded")
+    ms = lame.get("mscale", 1.0)
+    if ms >= 1e6:
+        labs.append("stiff")
+    elif ms < 1.0:
+        labs.append("soft")
+    if dscale != 1.0:
+        labs.append("data-scaled")
+    return labs
 
 
 @st.composite
@@ -87,22 +141,22 @@ def vbc_spec(draw, modes=("mix", "mix", "mix", "all_dir", "one_dir")):
 @st.composite
 def displacement_spec(draw, kinds=("general", "general", "symmetric", "rotation", "volumetric", "translation")):
     kind = draw(st.sampled_from(list(kinds)))
-    c = [draw(_f(-2, 2)) for _ in range(3)]
+    c = [draw(_d(-2, 2)) for _ in range(3)]
     Z = [[0.0] * 3 for _ in range(3)]
     if kind == "translation":
         G = Z
     elif kind == "general":
-        G = [[draw(_f(-2, 2)) for _ in range(3)] for _ in range(3)]
+        G = [[draw(_d(-2, 2)) for _ in range(3)] for _ in range(3)]
     elif kind == "symmetric":
         G = [[0.0] * 3 for _ in range(3)]
         for i in range(3):
             for j in range(i, 3):
-                G[i][j] = G[j][i] = draw(_f(-2, 2))
+                G[i][j] = G[j][i] = draw(_d(-2, 2))
     elif kind == "rotation":  # infinitesimal rigid rotation: skew-symmetric gradient
-        w = [draw(_f(-2, 2)) for _ in range(3)]
+        w = [draw(_d(-2, 2)) for _ in range(3)]
         G = [[0.0, -w[2], w[1]], [w[2], 0.0, -w[0]], [-w[1], w[0], 0.0]]
     else:  # volumetric
-        a = draw(_f(-2, 2))
+        a = draw(_d(-2, 2))
         G = [[a if i == j else 0.0 for j in range(3)] for i in range(3)]
     return {"kind": kind, "c": c, "G": G}
 
